@@ -28,6 +28,8 @@ UNIVERSE = {
           "files": {"ws/member/src/i.rs": "fn i() {\nlet y = 2;\nif y > 0 {\nbar();\n}\n}\n"}},
     "m": {"root": "plain/m/m.rs", "files": {"plain/m/m.rs": "mod sub;\nfn  m( ){}\n",
                                             "plain/m/sub.rs": "fn  s( ){}\n"}},
+    # formatted, but with CR LF terminators: differs only under an explicit newline_style
+    "w": {"root": "plain/w/w.rs", "files": {"plain/w/w.rs": "fn w() {}\r\nfn w2() {}\r\n"}},
     # the out-of-line module of `m`, given as an input of its own
     "s": {"root": "plain/m/sub.rs", "files": {"plain/m/sub.rs": "fn  s( ){}\n"}},
     "x": {"root": "xd/x.rs",
@@ -36,7 +38,8 @@ UNIVERSE = {
 CONFIGS = {"ws/rustfmt.toml": "tab_spaces = 2\n", "ws/member/rustfmt.toml": "tab_spaces = 8\n",
            "xd/rustfmt.toml": "error_on_line_overflow = true\nerror_on_unformatted = true\n"}
 MODES = {"files": [], "check": ["--check"], "stdout": ["--emit", "stdout"],
-         "json": ["--emit", "json"]}
+         "json": ["--emit", "json"],
+         "checkU": ["--check", "--config", "newline_style=Unix"]}
 
 
 def make_tree(d):
@@ -62,9 +65,9 @@ def project(ids, mode, d, out, err):
     for fid in ids:
         spec = UNIVERSE[fid]
         rels = sorted(spec["files"])
-        if mode in ("files", "check"):
+        if mode in ("files", "check", "checkU"):
             h = "|".join(str(core.fnv((d / r).read_bytes())) for r in rels)
-            if mode == "check":
+            if mode in ("check", "checkU"):
                 blocks = [b for b in re.split(r"(?=^Diff in )", out_n, flags=re.M)
                           if any(("<T>/" + r) in b.split("\n", 1)[0] for r in rels)]
                 h += "#" + str(core.fnv("".join(blocks).encode()))
@@ -101,15 +104,16 @@ def sections(mode, out, d):
                 res.append(f"{e['name']}#{core.fnv(json.dumps(e, sort_keys=True).encode())}")
         except Exception:
             res.append("unparsable#" + str(core.fnv(out_n.encode())))
-    elif mode == "check":
-        for b in re.split(r"(?=^Diff in )", out_n, flags=re.M):
-            m = re.match(r"Diff in ([^\n]*?):\d+:?\n", b)
+    elif mode in ("check", "checkU"):
+        for b in re.split(r"(?=^Diff in |^Incorrect newline style in )", out_n, flags=re.M):
+            m = re.match(r"Diff in ([^\n]*?):\d+:?\n", b) or \
+                re.match(r"Incorrect newline style in ([^\n]*)\n", b)
             if m:
                 res.append(f"{m.group(1)}#{core.fnv(b.encode())}")
-    return sorted(res)
+    return res          # in the order printed
 
 
-OVERLAPS = [["u", "u"], ["x", "x"], ["e", "e"], ["m", "s"], ["s", "m"], ["u", "m", "u"],
+OVERLAPS = [["w", "u"], ["u", "w"], ["w", "u", "w"], ["u", "u"], ["x", "x"], ["e", "e"], ["m", "s"], ["s", "m"], ["u", "m", "u"],
             ["s", "s", "m"], ["m", "m"], ["o", "i", "o"], ["s", "u", "s"]]
 
 
@@ -239,7 +243,7 @@ def run(tier, seed, replay=None):
             results = list(ex.map(job, enumerate(jobs)))
         for k, ((o, m), r) in enumerate(zip(jobs, results)):
             overlap = k >= n_order_jobs
-            ss = sorted(x for f in o for x in single[(m, f)]["sections"])
+            ss = [x for f in o for x in single[(m, f)]["sections"]]
             rec = {"order": o, "mode": m, "exit": r["exit"],
                    "single_exit": [single[(m, f)]["exit"] for f in o],
                    "hash": r["hash"], "single_hash": [single[(m, f)]["hash"][0] for f in o],
